@@ -170,9 +170,17 @@ func (p *player) attachUpTo(x *vrt.Exec, play bool) {
 			_, it = p.ws.Do("SETUP", fmt.Sprintf("%s/streamid=%d", pushURL, track), map[string]string{"Transport": tr(track)}, "")
 			add(it)
 		}
+		if !play {
+			p.handshake = strings.Join(hsk, " ")
+			return
+		}
 		_, it = p.ws.Do("PLAY", pushURL, nil, "")
 		add(it)
 	case "hflv", "wflv":
+		if !play {
+			p.handshake = "200 200 200" // nothing precedes the request itself
+			return
+		}
 		stream := media.Get("/live/p")
 		p.ref = &hx.Rec{Name: "ref-" + p.kind}
 		p.refCid = stream.StartConsume(p.ref, media.FLVPacket, "reference")
@@ -205,6 +213,10 @@ func (p *player) attachUpTo(x *vrt.Exec, play bool) {
 		st(p.wsp.Wrap("DESCRIBE", pushURL, nil))
 		for track := 0; track < 2; track++ {
 			st(p.wsp.Wrap("SETUP", fmt.Sprintf("%s/streamid=%d", pushURL, track), map[string]string{"Transport": tr(track)}))
+		}
+		if !play {
+			p.handshake = strings.Join(hsk, " ")
+			return
 		}
 		st(p.wsp.Wrap("PLAY", pushURL, nil))
 	}
@@ -858,6 +870,100 @@ func MulticastRestartBody() func(x *vrt.Exec) {
 	}
 }
 
+// sendPlay issues the request that attaches the player (PLAY, or the FLV request itself) without
+// waiting for anything.
+func (p *player) sendPlay() {
+	switch p.kind {
+	case "tcp", "udp", "mc1", "mc2":
+		p.tcp.Send("PLAY", pushURL, nil, "")
+	case "ws":
+		p.ws.Send("PLAY", pushURL, nil, "")
+	case "wsp":
+		p.wsp.CSeq++
+		p.wsp.Seq++
+		req := fmt.Sprintf("PLAY %s RTSP/1.0\r\nCSeq: %d\r\n\r\n", pushURL, p.wsp.CSeq)
+		p.wsp.Ctl.Push(1, []byte(fmt.Sprintf("WSP/1.1 WRAP\r\ncontentLength: %d\r\nseq: %d\r\n\r\n%s", len(req), p.wsp.Seq, req)))
+	case "hflv":
+		p.httpW = &flvResponse{hdr: http.Header{}}
+		w := p.httpW
+		vrt.GoNamed("http-flv-handler", func() {
+			flvsvc.ConsumeByHTTP(xlog.L(), "/live/p", "client", w)
+			p.httpDone = true
+		})
+	case "wflv":
+		p.flvWS = vnet.NewMsgSocket("wflv", "")
+		conn := websocket.VerifNewConn(p.flvWS, "/live/p", "")
+		vrt.GoNamed("ws-flv-handler", func() { flvsvc.ConsumeByWebsocket(xlog.L(), "/live/p", "client", conn) })
+	}
+}
+
+// AttachVsEndBody: a player's attaching request races with the end of the stream (the publisher
+// disconnects). Whatever the order, nothing may be left behind: the request is refused, or it is
+// accepted and the player is then disconnected by the server; afterwards counters, sockets,
+// goroutines and the registry are clean.
+func AttachVsEndBody(kind string) func(x *vrt.Exec) {
+	return func(x *vrt.Exec) {
+		vrt.Quiet(true)
+		w := newWorld(x)
+		if w == nil {
+			return
+		}
+		w.apply("pub", false)
+		w.apply("pub", false)
+		p := w.players[kind]
+		p.attachUpTo(x, false)
+		if p.handshake != "200 200 200" {
+			x.Failf("release handshake-refused "+strings.TrimRight(kind, "12"), "%s DESCRIBE/SETUP/SETUP answered [%s]", kind, p.handshake)
+			return
+		}
+		vrt.Quiet(false)
+		enderDone := false
+		vrt.GoNamed("ender", func() {
+			w.pusher.Conn.Close()
+			enderDone = true
+		})
+		p.sendPlay()
+		vrt.Point("join-ender", &enderDone, func() bool { return enderDone })
+		vrt.WhenIdle()
+		vrt.Quiet(true)
+		// what did the player get for its request?
+		answer := ""
+		switch kind {
+		case "tcp", "udp", "mc1":
+			answer = codes(p.tcp.Drain())
+		case "ws":
+			answer = codes(p.ws.Drain())
+		case "wsp":
+			for _, m := range p.wsp.Ctl.Take() {
+				t := string(m.Data)
+				if i := strings.Index(t, "RTSP/1.0 "); i >= 0 && len(t) >= i+12 {
+					answer = t[i+9 : i+12]
+				}
+			}
+		default:
+			answer = "n/a"
+		}
+		x.Observe("%s answer=%s closed=%v", kind, answer, p.serverClosed())
+		kk := strings.TrimRight(kind, "12")
+		if (answer == "200" || answer == "n/a") && !p.serverClosed() {
+			x.Failf("release attaching-player-not-disconnected "+kk, "the %s player's request was accepted (answer %s) while the publisher was leaving, and its connection is still open after the stream ended", kind, answer)
+		}
+		if media.Get("/live/p") != nil {
+			x.Failf("release stream-left-registered attach-race "+kk, "the publisher disconnected but /live/p still resolves")
+		}
+		if n := vnet.OpenUDP(); n != 0 && (answer == "200" || answer == "n/a") {
+			x.Failf("release udp-socket-left-open attach-race "+kk, "%d UDP sockets open after the stream ended", n)
+		}
+		// now the client goes too
+		w.closeAllClients()
+		if n := vnet.OpenUDP(); n != 0 {
+			x.Failf("release udp-socket-left-open-at-end attach-race "+kk, "%d UDP sockets open after every client left", n)
+		}
+		w.checkCounters("release-at-end attach-race "+kk, "publisher-disconnect", "PLAY || publisher disconnect", 0, 0, 0)
+		stuck(x, "release-at-end attach-race "+kk)
+	}
+}
+
 // FanoutScenarios are C01's.
 func FanoutScenarios(thorough bool) []runner.Scenario {
 	steps, e, sh, mcP := 6, 3, 8, 2
@@ -877,9 +983,17 @@ func ReleaseScenarios(thorough bool) []runner.Scenario {
 	if thorough {
 		steps, e, sh = 6, 5, 16
 	}
-	return []runner.Scenario{
+	out := []runner.Scenario{
 		{Name: fmt.Sprintf("transport-release-steps%d", steps), Body: ReleaseBody(steps), P: 0, E: e, Shards: sh, Horizon: 400000, NoFine: true},
 	}
+	p := 2
+	if thorough {
+		p = 3
+	}
+	for _, k := range []string{"tcp", "udp", "mc1", "ws", "wsp", "hflv", "wflv"} {
+		out = append(out, runner.Scenario{Name: "attach-vs-publisher-disconnect-" + k, Body: AttachVsEndBody(k), P: p, Shards: sh, Horizon: 400000, NoFine: true})
+	}
+	return out
 }
 
 var _ = rtp.ChannelVideo
